@@ -218,8 +218,10 @@ def run(tier):
         jobs.append((vname, INVS, dict(workers=2, c=dict(Mode="model", MaxLen=2, Variant=vname))))
     jobs.append(("soup_bare", ["EmitSoup"], dict(c=dict(MaxLen=L))))
     # after a root opener: every class-level root; the concrete block type rotates over all 19 (+4 kv)
-    jobs.append(("soup_blocks", ["EmitSoup"], dict(c=dict(MaxLen=L, Roots={"OPN", "SYM"}))))
-    jobs.append(("soup_blocks2", ["EmitSoup"], dict(c=dict(MaxLen=L, Roots={"STY", "GRD"}))))
+    # (the openers the loop treats specially go one class deeper than the generic opener in thorough)
+    jobs.append(("soup_blocks", ["EmitSoup"], dict(c=dict(MaxLen=L, Roots={"SYM", "STY"}))))
+    jobs.append(("soup_blocks2", ["EmitSoup"], dict(c=dict(MaxLen=L, Roots={"GRD"}))))
+    jobs.append(("soup_opn", ["EmitSoup"], dict(c=dict(MaxLen=3, Roots={"OPN"}))))
     jobs.append(("soup_other", ["EmitSoup"], dict(c=dict(MaxLen=2 if quick else 3, Roots={"SET", "KVO"}))))
     if not quick:
         jobs.append(("soup_core5", ["EmitSoup"], dict(c=dict(MaxLen=5, Alphabet=set(CORE)))))
@@ -402,8 +404,8 @@ def run(tier):
     tpool.close()
     tpool.join()
     ck.notes.append("TIMING: the TLA+ model does not decide the 'time roughly proportional to length' clause; it is measured: "
-                    "%d repetitive shapes at %s tokens (expression nesting / operator chains <= 100), wall time per call, "
-                    "process CPU time per call (wall time also recorded), violation when t(100n) > %dx the linear extrapolation of t(n) "
+                    "%d repetitive shapes at %s tokens (expression nesting / operator chains <= 100), "
+                    "process CPU time per call (wall time also recorded; the host is shared), violation when t(100n) > %dx the linear extrapolation of t(n) "
                     "(the long call is abandoned at that point)"
                     % (len(tcover), tsizes, int(factor)))
     ck.notes.append("include expansion kept out with expand_includes=False (reused Parser/MapfileToDict per worker; public mappyfile.loads sampled)")
